@@ -195,6 +195,16 @@ def build(case, hints):
     return cls(**cfg), student
 
 
+def scripted_draws_misaligned(grader):
+    """instrument self-check: every scripted variable was drawn exactly once per sample, in script order"""
+    from engine.fixtures import ScriptedSampler
+    n = grader.config['samples']
+    for name, sampler in grader.config.get('sample_from', {}).items():
+        if isinstance(sampler, ScriptedSampler) and len(sampler.draws) not in (0, n):
+            return 'variable %s was drawn %d times for %d samples' % (name, len(sampler.draws), n)
+    return None
+
+
 def observe(case, hints):
     """run the real grader; returns the observation record of Comparers (plus the raw message)"""
     from mitxgraders.exceptions import StudentFacingError, InputTypeError
@@ -218,6 +228,10 @@ def observe(case, hints):
             cls = type(e).__name__
         return {'k': 'raise', 'g': [0, 1], 'ok': '-', 'lvl': message_level(str(e)), 'cls': cls, 'sf': sf,
                 'msg': str(e)[:200], 'input': student}
+    bad_draws = scripted_draws_misaligned(grader)
+    if bad_draws:
+        return {'k': 'config', 'g': [0, 1], 'ok': '-', 'lvl': 'other', 'cls': 'ScriptedSampler', 'sf': False,
+                'msg': bad_draws, 'input': student}
     g = r.get('grade_decimal')
     try:
         f = Fraction(g).limit_denominator(1000)
